@@ -18,11 +18,17 @@
    ampersands, line breaks), and the prefix is declared on the root exactly when some node uses it.
    C08_render_injective: different result trees never print alike.
 
-   PARTIAL in two respects: (1) that the formatter's result satisfies dnode_ok is a TESTED premise (evaluated on every
-   result tree of every run together with the conclusion); it holds when the documents' names are plain names, because
-   the handlers only add names of the script and the documented diff names -- not yet a theorem;  (2) pretty_print = True
-   (lxml's indentation) and documents with namespaces of their own are outside the printing model; there the clause is
-   established by re-parsing the implementation's string with lxml on every run (testing). *)
+   C08_result_in_fragment / C08_prints_wellformed_differ (XmlFmtNames, XmlFmtNames2, XmlFmtNames3): that the formatter's
+   result satisfies dnode_ok is a THEOREM for configurations without text tags: the handlers only add names the script
+   brings and the documented diff names, finalize builds diff:insert / diff:delete / diff:replace (old-text) wrappers
+   (invariant wn of the working tree).  For the differ's OWN script the premises speak of the two documents only:
+   those of C08_total_clean_differ plus doc_xnb -- every element and attribute name is a non-empty string of name
+   characters without a colon (documents without namespaces).  Conclusion: xml_format returns T, T is clean, and
+   the string printed for T parses back to T, for every admissible spelling P of the diff prefix.
+
+   PARTIAL: pretty_print = True (lxml's indentation), text-tag configurations and documents with namespaces of their own
+   are outside the printing theorem; there the clause is established by re-parsing the implementation's string with lxml on
+   every run (testing). *)
 From Coq Require Import List NArith Bool.
 Import ListNotations.
 Require Import XV.Placeholder XV.Serialize XV.SerializeProofs XV.SerializeDoc XV.SerializeDocProofs.
@@ -56,3 +62,61 @@ Example C08_render_example :
   parse DP (pneed exT) (render DP exT) = Some (nk exT).
 Proof. vm_compute. repeat split; reflexivity. Qed.
 Print Assumptions C08_render_example.
+
+(* ---- the formatter's result and the printing step together (names of the Serialize side are written qualified from here on) ---- *)
+Require Import XV.Str XV.Json XV.TextFormat XV.Forest XV.Matcher XV.Differ XV.Spec XV.Path XV.WF XV.PathProofs XV.Render
+               XV.XmlFmt XV.Projections XV.XmlFmtProofs1 XV.XmlFmtProofs2 XV.XmlFmtProofsR2 XV.XmlFmtProofs3 XV.XmlFmtProofs4 XV.XmlFmtProofs5
+               XV.XmlFmtProofs9 XV.XmlFmtProofsB XV.XmlFmtProofsC XV.PrefixProofs XV.XmlFmtDiffer3 XV.XmlFmtDiffer
+               XV.XmlFmtNames XV.XmlFmtNames2 XV.XmlFmtNames3.
+Require XV.PlaceholderUndo.
+Local Open Scope N_scope.
+
+(* The formatter's result lies in the fragment (text_tags = []): premises as C08_total_clean_partial plus
+     wn W              the names of the (prepared) left document are XML names of the fragment,
+     iact_names        the tags / attribute names the script brings are plain XML names. *)
+Theorem C08_result_in_fragment :
+  forall (c : cfg) (o : oracle) (rootns : list (option str * str)) (pe : penv) (root : id)
+         (L : forest) (script : list iact) (gs : list gaction) (fT : forest),
+  c_tt c = [] ->
+  wf_forest L root -> (forall m, desc L root m -> is_comment (ltag (flab L m)) = false) ->
+  let W := remove_comments (doc_tree L root) in
+  PlaceholderUndo.npua W = true -> clean_tags W -> nodiff W -> wclean W -> wn W ->
+  run_spec root L script = Some fT -> render_script pe root L script = Some gs ->
+  fscript_ok rootns pe root [(Some DIFF_PREFIX, DIFF_NS)] L script ->
+  Forall names_plain script -> Forall iact_plain script -> Forall iact_names script ->
+  run_ok c o rootns (FS W Placeholder.ph_init [(Some DIFF_PREFIX, DIFF_NS)]) gs ->
+  exists T, xml_format c o rootns Placeholder.ph_init gs W = FOk T /\ out_clean T = true /\ SerializeDoc.dnode_ok T = true.
+Proof. intros c o rootns pe root L script gs fT _. exact (format_total_names c o rootns pe root L script gs fT). Qed.
+Print Assumptions C08_result_in_fragment.
+
+(* All of C08 for the differ's own script, premises about the two documents only (no text tags, pretty_print = False,
+   documents without namespaces): the formatter completes, the result is placeholder free and uses the diff namespace
+   as documented, and the printed string parses back to the result tree. *)
+Theorem C08_prints_wellformed_differ :
+  forall (c : cfg) (o : oracle) (pe : penv) (L R : forest) (rootL rootR : id)
+         (lns rns : nsmap) (m : list (id * id)) (pro : list iact),
+  c_tt c = [] ->
+  wf_forest L rootL -> wf_forest R rootR -> valid_matching L R rootL rootR m ->
+  ns_prologue lns rns = Some pro ->
+  ns_decl_okb pe lns rns L rootL R rootR = true ->
+  doc_names_okb pe L rootL = true -> doc_names_okb pe R rootR = true ->
+  doc_okb L = true -> doc_okb R = true ->
+  doc_xnb L = true -> doc_xnb R = true ->
+  (c_replace c = true -> text_size R rootR <= 6393) ->
+  let script := pro ++ out (gen_script [] R rootR L rootL m) in
+  let W := remove_comments (doc_tree L rootL) in
+  exists gs T, render_script pe rootL L script = Some gs /\
+    xml_format c o lns Placeholder.ph_init gs W = FOk T /\ out_clean T = true /\ SerializeDoc.dnode_ok T = true /\
+    forall P, SerializeProofs.P_ok P ->
+      Serialize.parse P (Serialize.pneed T) (SerializeDoc.render P T) = Some (SerializeProofs.nk T).
+Proof. intros c o pe L R rootL rootR lns rns m pro _. exact (differ_prints_b c o pe L R rootL rootR lns rns m pro). Qed.
+Print Assumptions C08_prints_wellformed_differ.
+
+(* non-vacuity: the example of Properties/C09.v (documents a(b xy, t, c) -> a k=1 (b xz, t, d)): every premise by computation *)
+Example C08_prints_example :
+  (wf_forest dx_L 0%nat /\ wf_forest dx_R 0%nat /\ valid_matching dx_L dx_R 0%nat 0%nat dx_m /\ ns_prologue [] [] = Some [] /\
+   ns_decl_okb dx_pe [] [] dx_L 0%nat dx_R 0%nat = true /\ doc_names_okb dx_pe dx_L 0%nat = true /\ doc_names_okb dx_pe dx_R 0%nat = true /\
+   doc_okb dx_L = true /\ doc_okb dx_R = true /\ text_size dx_R 0%nat <= 6393) /\
+  doc_xnb dx_L = true /\ doc_xnb dx_R = true.
+Proof. split; [exact dx_premises|]. vm_compute. split; reflexivity. Qed.
+Print Assumptions C08_prints_example.
